@@ -146,10 +146,11 @@ inline void add_module_ops(std::vector<LsmOp>& ops, const std::vector<uint64_t>&
       for (size_t i = 0; i < c.bufs.size(); ++i) if (c.bufs[i].alias_of >= 0) { al = true; if (c.bufs[root_of(c, (int)i)].role != R_IN) inpl = true; }
       if (al && !inpl) return;  // two sources sharing one buffer: not an in-place call
       (al ? last_inplace : last) = std::make_shared<ApiCase>(c); });
-    for (auto& rep : {last, last_inplace}) {
+    // each representative with 64-byte aligned buffers and with buffers at 8 modulo 64 (alignment-keyed code paths on both sides)
+    for (auto& rep : {last, last_inplace}) for (int off : {0, 8}) {
       if (!rep) continue;
-      LsmOp op; op.name = rep->id + (salt ? sfmt("#data%llu", (unsigned long long)salt) : std::string()); op.family = "module"; op.warm_key = "";
-      op.run = [rep] { ExecResult r; ExecOpts eo; eo.prefill = 1; execute(*rep, eo, r); return hash_outputs(*rep, r); };
+      LsmOp op; op.name = rep->id + sfmt("@+%d", off) + (salt ? sfmt("#data%llu", (unsigned long long)salt) : std::string()); op.family = "module"; op.warm_key = "";
+      op.run = [rep, off] { ExecResult r; ExecOpts eo; eo.prefill = 1; for (int i = 0; i < 12; ++i) eo.off[i] = off; execute(*rep, eo, r); return hash_outputs(*rep, r); };
       ops.push_back(op);
     }
   }
